@@ -5,8 +5,8 @@ import vlib
 
 META = {
     "category": "model_checking",
-    "text": "Cache.tla transcribes src/net/client/cache.rs (key, the exact->Ad->Do->RD=1 lookup lattice with the entries it derives and inserts, validity(), expiry test, decrement_ttl, remove_dnssec, prepare_for_insert) and states the property over a ghost log of everything upstream said: served-from-cache responses were said by upstream for the same question and compatible RD/CD/AD/DO flags, TTLs aged by exactly the whole seconds elapsed, never served past the smallest TTL / max_validity / the per-class bound, no RRSIG/NSEC/NSEC3 or AD to queries that did not ask. TLC checks this on every transition, exhaustively for histories of 3-5 steps over three constant sets (flag lattice; ten upstream response classes x TTL vectors x three configurations; two names x two types x CD x spellings x bypass queries) with Evict always enabled, and seven seeded spec mutants must each be caught. TLC-generated behaviours (exhaustive short ones and long simulated ones) are executed on the real cache::Connection over a scripted upstream under tokio's paused clock and compared after every operation; 2000-step random histories recorded from the real cache are validated by TLC against the spec with the property evaluated in every state.",
-    "note": "Config: the documented defaults (DocDefaults) are exercised through Config::new() with no validity setter called, and every setter's clamping is compared with the documented limits via Config's Debug output. Trusted: TLC, the transcription in Cache.tla, the harness's message construction/projection (names and rdata compared case-insensitively, message ID not compared). One request at a time (no concurrent requests on one cache). moka's capacity eviction is not modelled (Evict(k) is always enabled in the model; the bindings run below capacity). Upstream is assumed well-behaved (DNSSEC records only to DO queries, AD only to AD/DO queries) and well-formed. Histories beyond the explored depth are sampled, not enumerated.",
+    "text": "Cache.tla transcribes src/net/client/cache.rs (key, the exact->Ad->Do->RD=1 lookup lattice with the entries it derives and inserts, validity(), expiry test, decrement_ttl, remove_dnssec, prepare_for_insert) and states the property over a ghost log of everything upstream said: served-from-cache responses were said by upstream for the same question and compatible RD/CD/AD/DO flags, TTLs aged by exactly the whole seconds elapsed, never served past the smallest TTL / max_validity / the per-class bound, no RRSIG/NSEC/NSEC3 or AD to queries that did not ask. TLC checks this on every transition, exhaustively for histories of 3-5 steps over three constant sets (flag lattice; ten upstream response classes x TTL vectors x three configurations; two names x two types x CD x spellings x bypass queries) with Evict always enabled, and seeded spec mutants must each be caught. The request alphabet includes the construction ROUTE of a request (header bits preset in the source message or set through header_mut(), a source that already carries an OPT record with DO clear / set, set_dnssec_ok / set_udp_payload_size calls): the flags under which the cache looks up and stores (what to_message() composes, by X15's ReqCompose.tla, INSTANCEd) must be the flags upstream is asked with (what append_message() composes into a stream target) and the flags of the request (P_ViewIsWire); the model's upstream answers the wire view. TLC-generated behaviours (exhaustive short ones and long simulated ones) are executed on the real cache::Connection over a scripted upstream under tokio's paused clock and compared after every operation; 2000-step random histories recorded from the real cache are validated by TLC against the spec with the property evaluated in every state.",
+    "note": "Config: the documented defaults (DocDefaults) are exercised through Config::new() with no validity setter called, and every setter's clamping is compared with the documented limits via Config's Debug output. The scripted upstream of both bindings parses the octets the real request composes into a StreamTarget (never to_message() or the trait getters); the recorder's upstream answers that wire view and TLC compares it with the model's AskedQ. Trusted: TLC, the transcription in Cache.tla, ReqCompose.tla (checked by X15), the harness's message construction/projection (names and rdata compared case-insensitively, message ID not compared). One request at a time (no concurrent requests on one cache). moka's capacity eviction is not modelled (Evict(k) is always enabled in the model; the bindings run below capacity). Upstream is assumed well-behaved (DNSSEC records only to DO queries, AD only to AD/DO queries) and well-formed. Histories beyond the explored depth are sampled, not enumerated.",
     "technique": "TLA+ spec (Cache.tla) + TLC exhaustive over bounded histories with hidden ghost log; spec->impl behaviour replay under virtual time; impl->spec trace validation",
     "design_ref": "DESIGN.md §4 C20",
 }
@@ -29,6 +29,9 @@ MUTANTS = [
     ("M_tc_cached", "P_BoundsRespected", "MC_Cache_classes"),
     ("M_err_forever", "P_BoundsRespected", "MC_Cache_classes"),
     ("M_ad_leak_do", "P_NoDnssecLeak", "MC_Cache"),
+    # to_message() (the cache's key) and append_message() (the wire) disagree
+    # about an OPT record of the source message
+    ("M_fastpath", "P_ViewIsWire|P_ServedWasSaid", "MC_Cache_route"),
 ]
 
 
@@ -72,10 +75,11 @@ def _run(ctx, thorough, tmp_cfgs):
         _bindings(ctx, thorough, tmp_cfgs, tag)
         return
     cfgs = ["MC_Cache", "MC_Cache_classes", "MC_Cache_maxval", "MC_Cache_default",
-            "MC_Cache_part"]
+            "MC_Cache_part", "MC_Cache_route"]
     if thorough:
         cfgs = ["MC_Cache", "MC_Cache_thorough", "MC_Cache_classes_thorough",
-                "MC_Cache_maxval", "MC_Cache_default", "MC_Cache_part_thorough"]
+                "MC_Cache_maxval", "MC_Cache_default", "MC_Cache_part_thorough",
+                "MC_Cache_route", "MC_Cache_route_thorough"]
     for cfg in cfgs:
         base = cfg
         mc = ctx.tlc("MC_Cache", cfg, workers=8, coverage=False,
@@ -89,7 +93,7 @@ def _run(ctx, thorough, tmp_cfgs):
     for l in LABELS:
         ctx.coverage_actions[l] = (1, 1)
     # the invariants have teeth: every seeded mutant of the spec is caught
-    quick_muts = ("M_nostrip", "M_expiry_secs", "M_first_auth", "M_deleg_nomin")
+    quick_muts = ("M_nostrip", "M_expiry_secs", "M_first_auth", "M_deleg_nomin", "M_fastpath")
     muts = MUTANTS if thorough else [m for m in MUTANTS if m[0] in quick_muts]
     for mut, prop, base in muts:
         cfg = "%s_m%s_%s" % (base, tag, mut)
@@ -181,6 +185,19 @@ def _bindings(ctx, thorough, tmp_cfgs, tag):
         rc, out, err, _ = ctx.run_bin("replay_cache", ["--open-devs", ""], stdin_path=badp)
         ctx.selftest("expected TTL off by one is reported by replay_cache", "FAIL " in out)
     ctx.replay_cases("replay_cache", cases, label="cache-exhaustive")
+    # every construction route of a request (header bits in the source or
+    # through header_mut, a source with / without an OPT record, the EDNS
+    # setters): the mock upstream answers what it finds in the octets the
+    # request composes into a StreamTarget
+    casesr = os.path.join(ctx.work, "cases-route.ndjson")
+    genr = ctx.tlc("Gen_Cache", "Gen_Cache_route" + ("_thorough" if thorough else ""), workers=8, coverage=False,
+                   label="gen-route", cases_to=casesr, count=False)
+    ctx.require_ok(genr, "Gen_Cache_route")
+    if genr.ncases < 1000:
+        raise vlib.ToolError("generator produced too few behaviours")
+    if not _routes_covered(casesr):
+        raise vlib.ToolError("route cases never re-ask a question of a source-OPT request with a setter-built DO request")
+    ctx.replay_cases("replay_cache", casesr, label="cache-routes")
     # every response class x configuration corner around the bounds
     cases2 = os.path.join(ctx.work, "cases-classes.ndjson")
     gen2 = ctx.tlc("Gen_Cache", "Gen_Cache_classes", workers=8, coverage=False,
@@ -266,6 +283,22 @@ def _bindings(ctx, thorough, tmp_cfgs, tag):
     ctx.assume("capacity eviction (moka) is an always-enabled Evict(k) in the model; bindings run below capacity")
     ctx.assume("'once its smallest TTL has elapsed' is read as elapsed > TTL (served at the boundary instant with TTL 0); the smallest TTL is taken over the records actually handed out")
     ctx.assume("names and rdata are compared case-insensitively, the message ID is not compared")
+
+
+def _routes_covered(path):
+    """vacuity guard of the route cases: some behaviour sends a request whose
+    source carries an OPT with DO and no setter is used, then asks the same
+    question with set_dnssec_ok(true)"""
+    with open(path) as f:
+        for line in f:
+            ops = [o for o in json.loads(line)["in"]["ops"] if o["op"] == "query"]
+            for i, a in enumerate(ops):
+                r = a["q"]["route"]
+                if r["src"]["opt"] == 2 and not r["ops"]:
+                    for b in ops[i + 1:]:
+                        if ["do", 1] in b["q"]["route"]["ops"]:
+                            return True
+    return False
 
 
 def _rungs(path):
